@@ -186,6 +186,12 @@ pub(crate) struct SolverState {
 
     /// Activity score per package.
     name_activity: Vec<f32>,
+
+    /// The decision level at which the current `run_sat` call started. The
+    /// decisions up to this level belong to what was solved before (the root
+    /// requirements and earlier soft requirements) and are not to be undone
+    /// while solving for a soft requirement.
+    base_level: u32,
 }
 
 impl<D: DependencyProvider> Solver<D, NowOrNeverRuntime> {
@@ -428,6 +434,8 @@ impl<D: DependencyProvider, RT: AsyncRuntime> Solver<D, RT> {
             .next_back()
             .map(|decision| self.state.decision_tracker.level(decision.variable))
             .unwrap_or(0);
+
+        self.state.base_level = starting_level;
 
         let mut level = starting_level;
 
@@ -1475,8 +1483,12 @@ impl<D: DependencyProvider, RT: AsyncRuntime> Solver<D, RT> {
             );
         }
 
-        // Should revert at most to the root level
-        let target_level = back_track_to.max(1);
+        // Should revert at most to the root level, and never below the level at which
+        // solving for the current soft requirement started: backtracking further would
+        // silently undo what was solved before, while `run_sat` keeps treating the
+        // starting level as the boundary of what it may undo. The learnt literal is
+        // simply asserted at that level instead.
+        let target_level = back_track_to.max(1).max(self.state.base_level);
         self.state.decision_tracker.undo_until(target_level);
 
         self.decay_activity_scores();
